@@ -175,7 +175,8 @@ def parse_vspec(path):
             elif d == "pin_body":
                 cur_contract["pin_body"] = rest
             elif d == "loop":
-                mode = ("loop", cur_contract, args[0])
+                # `//@ loop N` invariants; `//@ loop N begin` / `//@ loop N end`: proof hints at the start / end of the loop body
+                mode = ("loop", cur_contract, args[0] + ("." + args[1] if len(args) > 1 and args[1] in ("begin", "end") else ""))
             elif d == "hoist":
                 kv, flags = _kv(args)
                 h = {"in_fn": kv["in"].replace("~", " "), "nth": int(kv["nth"]), "split": kv["split"],
